@@ -15,6 +15,9 @@ import (
 	vestingkeeper "github.com/chain4energy/c4e-chain/x/cfevesting/keeper"
 	vestingtypes "github.com/chain4energy/c4e-chain/x/cfevesting/types"
 	sdk "github.com/cosmos/cosmos-sdk/types"
+	authtypes "github.com/cosmos/cosmos-sdk/x/auth/types"
+	authvesting "github.com/cosmos/cosmos-sdk/x/auth/vesting/types"
+	distributiontypes "github.com/cosmos/cosmos-sdk/x/distribution/types"
 	"pgregory.net/rapid"
 )
 
@@ -30,6 +33,8 @@ type vestMachine struct {
 	sentToRecorded, sendSwitchedOff                                             int
 	sendDisabled                                                                bool
 	govOwner                                                                    bool
+	otherKinds                                                                  []sdk.AccAddress // existing accounts of the other vesting kinds
+	rewardAddressSet                                                            int
 	directCliff                                                                 int
 	genesisBalanceOffRefused                                                    int
 	recordedAbsent                                                              []sdk.AccAddress
@@ -395,6 +400,8 @@ func (m *vestMachine) actSend() {
 		to = owner
 	case toKind == 3:
 		to = ModuleAddr("fee_collector")
+	case toKind == 5 && len(m.otherKinds) > 0:
+		to = m.otherKinds[rapid.IntRange(0, len(m.otherKinds)-1).Draw(t, "toOtherKind")]
 	case toKind == 4 && len(m.recordedAbsent) > 0:
 		// an address the genesis file records as a vesting account although no account exists there
 		to = m.recordedAbsent[0]
@@ -540,11 +547,13 @@ func (m *vestMachine) actCreateVestingAccount() {
 	t := m.t
 	from := m.owner("from")
 	var to sdk.AccAddress
-	switch rapid.IntRange(0, 5).Draw(t, "toKind") {
-	case 0:
+	switch tk := rapid.IntRange(0, 6).Draw(t, "toKind"); {
+	case tk == 0:
 		to = KeyAcc(4).Addr
-	case 1:
+	case tk == 1:
 		to = ModuleAddr("fee_collector")
+	case tk == 2 && len(m.otherKinds) > 0:
+		to = m.otherKinds[rapid.IntRange(0, len(m.otherKinds)-1).Draw(t, "toOtherKind")]
 	default:
 		to = m.v.NextFresh()
 	}
@@ -640,6 +649,46 @@ func (m *vestMachine) actions() map[string]func(*rapid.T) {
 		"split":                func(*rapid.T) { m.actSplit() },
 		"denomProposal":        func(*rapid.T) { m.actDenomProposal() },
 		"bankSendSwitch":       func(*rapid.T) { m.actBankSendSwitch() },
+		"setWithdrawAddress":   func(*rapid.T) { m.actSetWithdrawAddress() },
+	}
+}
+
+// otherKindAccounts creates one account of each other vesting kind of x/auth (periodic, delayed,
+// permanent locked): existing accounts that the module's account-creating messages may be pointed at.
+func (m *vestMachine) otherKindAccounts() {
+	nowS := nsTime(m.v.NowNs).Unix()
+	ov := sdk.NewCoins(sdk.NewInt64Coin(Denom, 9000))
+	for k := 0; k < 3; k++ {
+		a := m.v.NextFresh()
+		base := authtypes.NewBaseAccountWithAddress(a)
+		var acc authtypes.AccountI
+		switch k {
+		case 0:
+			acc = authvesting.NewPeriodicVestingAccount(base, ov, nowS-10, authvesting.Periods{{Length: 1000, Amount: sdk.NewCoins(sdk.NewInt64Coin(Denom, 4000))}, {Length: 2000, Amount: sdk.NewCoins(sdk.NewInt64Coin(Denom, 5000))}})
+		case 1:
+			acc = authvesting.NewDelayedVestingAccount(base, ov, nowS+5000)
+		default:
+			acc = authvesting.NewPermanentLockedAccount(base, ov)
+		}
+		acc = m.v.App.AccountKeeper.NewAccount(m.v.Ctx, acc)
+		m.v.App.AccountKeeper.SetAccount(m.v.Ctx, acc)
+		FundAccount(m.v.App, m.v.Ctx, a, ov)
+		m.otherKinds = append(m.otherKinds, a)
+	}
+}
+
+// actSetWithdrawAddress: an owner registers another address for his staking rewards with x/distribution
+// (MsgSetWithdrawAddress).  That setting is about staking rewards; what a pool pays still goes to the owner.
+func (m *vestMachine) actSetWithdrawAddress() {
+	owner := m.owner("rewardOwner")
+	to := KeyAcc(7).Addr
+	if rapid.IntRange(0, 3).Draw(m.t, "backToOwner") == 0 {
+		to = owner
+	}
+	res := RunMsg(m.v.App, m.v.Ctx, distributiontypes.NewMsgSetWithdrawAddress(owner, to))
+	m.note("owner %s sets the address for his staking rewards to %s -> ok=%v", owner, to, res.OK())
+	if res.OK() && !to.Equals(owner) {
+		m.rewardAddressSet++
 	}
 }
 
